@@ -292,13 +292,37 @@ func c20GuardedValue(c *Ctx, guards []*FieldGuard) {
 		if g.Guard == "" {
 			continue
 		}
-		if _, isMap := g.Accesses[0].Type.Underlying().(*types.Map); !isMap {
+		_, isMap := g.Accesses[0].Type.Underlying().(*types.Map)
+		_, isSlice := g.Accesses[0].Type.Underlying().(*types.Slice)
+		if !isMap && !isSlice {
 			continue
+		}
+		kind := "map"
+		if isSlice {
+			kind = "slice"
 		}
 		inPlace := false
 		for _, a := range g.Accesses {
-			if a.Kind == "map-update" || a.Kind == "map-delete" {
+			if a.Kind == "map-update" || a.Kind == "map-delete" || a.Kind == "elem-store" {
 				inPlace = true
+			}
+			// append(field[:i], …): the elements behind i are shifted inside the shared backing array
+			if isSlice && a.Kind == "load" {
+				if ld, ok := a.Instr.(*ssa.UnOp); ok && ld.Referrers() != nil {
+					for _, r := range *ld.Referrers() {
+						sl, ok := r.(*ssa.Slice)
+						if !ok || sl.X != ssa.Value(ld) || sl.Referrers() == nil {
+							continue
+						}
+						for _, rr := range *sl.Referrers() {
+							if call, ok := rr.(*ssa.Call); ok {
+								if b, ok := call.Call.Value.(*ssa.Builtin); ok && b.Name() == "append" && len(call.Call.Args) > 0 && call.Call.Args[0] == ssa.Value(sl) {
+									inPlace = true
+								}
+							}
+						}
+					}
+				}
 			}
 		}
 		if !inPlace {
@@ -318,8 +342,12 @@ func c20GuardedValue(c *Ctx, guards []*FieldGuard) {
 			reported[at] = true
 			n++
 			ok := ls.At(at).Has(g.Guard)
-			c.R.Check(ok, "R-guarded-value", sprintf("%s of the %s map in %s", what, g.Field, fname(fn)), c.Pos(at.Pos()), "holds "+g.Guard,
-				sprintf("%s does a %s on the map of %s without holding %s%s: the map is updated in place under that lock by other goroutines, so this is an unsynchronised map read (the runtime may abort with 'concurrent map read and map write')", fname(fn), what, g.Field, g.Guard, via))
+			pos := at.Pos()
+			if !pos.IsValid() {
+				pos = fn.Pos()
+			}
+			c.R.Check(ok, "R-guarded-value", sprintf("%s of the %s %s in %s", what, g.Field, kind, fname(fn)), c.Pos(pos), "holds "+g.Guard,
+				sprintf("%s does a %s on the %s of %s without holding %s%s: it is updated in place under that lock by other goroutines, so this is an unsynchronised read of shared memory (for a map the runtime may abort with 'concurrent map read and map write'; for a slice, elements shift under the reader)", fname(fn), what, kind, g.Field, g.Guard, via))
 		}
 		uses = func(v ssa.Value, fn *ssa.Function, d int, via string) {
 			if d > 5 || v == nil || seen[key{v, fn}] || v.Referrers() == nil {
@@ -338,6 +366,18 @@ func c20GuardedValue(c *Ctx, guards []*FieldGuard) {
 					}
 				case *ssa.Phi:
 					uses(x, fn, d, via)
+				case *ssa.Slice:
+					if x.X == v {
+						uses(x, fn, d, via) // a re-slice shares the backing array
+					}
+				case *ssa.IndexAddr:
+					if x.X == v && x.Referrers() != nil {
+						for _, er := range *x.Referrers() {
+							if ld, ok := er.(*ssa.UnOp); ok && ld.Op == token.MUL {
+								check(ld, fn, "element read", via)
+							}
+						}
+					}
 				case *ssa.ChangeType:
 					uses(x, fn, d, via)
 				case *ssa.MakeInterface:
@@ -386,8 +426,8 @@ func c20GuardedValue(c *Ctx, guards []*FieldGuard) {
 				case ssa.CallInstruction:
 					cc := x.Common()
 					if b, ok := cc.Value.(*ssa.Builtin); ok {
-						if b.Name() == "len" {
-							check(x, fn, "len", via)
+						if b.Name() == "len" && isMap {
+							check(x, fn, "len", via) // (len of a slice value reads the copied header only)
 						}
 						continue
 					}
